@@ -334,9 +334,212 @@ theorem createMembers : ∀ (kvs : Members) (h : H) (cnt : Nat), Create h →
     rw [createValue v _ hC' (by simp) (by simp; omega), andThen_ok_zero]
     have hC'' : Create { h with st := h.st ++ [.val (.str k)] ++ [.val v] } := hC
     rw [createMembers rest _ (cnt + 1) hC'' (by simp; omega)]
-    simp only [flat_cons, List.append_assoc, List.singleton_append, List.length_cons, List.cons_append,
+    simp only [flat_cons, List.append_assoc, List.length_cons, List.cons_append,
       List.nil_append]
     rw [show cnt + 1 + rest.length = cnt + (rest.length + 1) by omega]
 end
+
+/-! ## update mode: the existing object is updated in place -/
+
+theorem findIdx_none {k : List Nat} : ∀ {ekvs : Members}, findIdx k ekvs = none → hasKey k ekvs = false
+  | [], _ => rfl
+  | (k', v) :: rest, h => by
+    by_cases e : k' = k
+    · simp [findIdx, e] at h
+    · simp only [findIdx, e, if_false, Option.map_eq_none_iff] at h
+      rw [hasKey_cons, findIdx_none h]
+      simpa using fun h' : k = k' => e h'.symm
+
+theorem findIdx_some {k : List Nat} : ∀ {ekvs : Members} {i : Nat}, findIdx k ekvs = some i →
+    ∃ ev, ekvs[i]? = some (k, ev) ∧ hasKey k ekvs = true ∧
+      ∀ g : JVal → JVal, modifyFirst k g ekvs = ekvs.set i (k, g ev)
+  | [], _, h => by simp [findIdx] at h
+  | (k', v) :: rest, i, h => by
+    by_cases e : k' = k
+    · simp only [findIdx, e, if_true, Option.some.injEq] at h
+      subst h; subst e
+      exact ⟨v, by simp, by simp [hasKey_cons], fun g => by simp [modifyFirst]⟩
+    · simp only [findIdx, e, if_false, Option.map_eq_some_iff] at h
+      obtain ⟨j, hj, rfl⟩ := h
+      obtain ⟨ev, h1, h2, h3⟩ := findIdx_some hj
+      exact ⟨ev, by simpa using h1, by simp [hasKey_cons, h2], fun g => by simp [modifyFirst, e, h3 g]⟩
+
+theorem apply_scalar (ev v : JVal) (hv : ∀ kvs, v ≠ .obj kvs) : apply ev v = v :=
+  apply.eq_2 ev v (fun _ _ tkvs _ h => hv tkvs h)
+
+theorem apply_not_obj (ev t : JVal) (he : isNonEmptyObj ev = false) : apply ev t = t :=
+  apply.eq_2 ev t (fun m ms _ h _ => by subst h; simp [isNonEmptyObj] at he)
+
+/-- a scalar of the text overwrites the node `cur_node_` -/
+theorem updScalar (v : JVal) (hv1 : ∀ xs, v ≠ .arr xs) (hv2 : ∀ kvs, v ≠ .obj kvs) (h : H) (c : Path) (ev : JVal)
+    (hc : h.curNode = some c) (hg : getAt h.doc c = some ev) :
+    ∃ d', setAt h.doc c (apply ev v) = some d' ∧ driveValue h v = .ok ({ h with doc := d' }, 0) := by
+  obtain ⟨d', hd'⟩ := setAt_of_getAt c h.doc ev v hg
+  refine ⟨d', by rw [apply_scalar ev v hv2]; exact hd', ?_⟩
+  have : driveValue h v = chk (h.scalar v) fun h => .ok (h, 0) := by
+    cases v with
+    | arr xs => exact absurd rfl (hv1 xs)
+    | obj kvs => exact absurd rfl (hv2 kvs)
+    | _ => simp [driveValue]
+  rw [this]
+  simp [H.scalar, hc, hd']
+
+/-- an array of the text is built on the node stack and replaces the node `cur_node_` -/
+theorem updArray (xs : List JVal) (h : H) (c : Path) (ev : JVal)
+    (hc : h.curNode = some c) (hg : getAt h.doc c = some ev) (hst : h.st = []) (hp : h.parent = 0)
+    (hb : 1 + nodesList xs ≤ h.cap) :
+    ∃ d', setAt h.doc c (apply ev (.arr xs)) = some d' ∧
+      driveValue h (.arr xs) = .ok ({ h with doc := d', curNode := some c }, 0) := by
+  obtain ⟨doc, st, cap, parent, pnode, cnode, pst, fst, found⟩ := h
+  simp only at hc hg hst hp hb
+  subst hc hst hp
+  obtain ⟨d1, hd1⟩ := setAt_of_getAt c doc ev .null hg
+  obtain ⟨d', hd'⟩ := setAt_of_getAt c doc ev (.arr xs) hg
+  refine ⟨d', by rw [apply_scalar ev _ (by intro kvs; simp)]; exact hd', ?_⟩
+  have hC : Create (⟨d1, [SNode.hole 0], cap, 0, some c, none, pnode :: pst, fst, found⟩ : H) :=
+    ⟨rfl, fun p hp => by
+      simp only [Option.some.injEq] at hp; subst hp
+      exact ⟨.null, getAt_setAt _ _ _ _ hd1, by intro kvs; simp⟩⟩
+  rw [driveValue]
+  simp only [H.startArray, hd1, H.pushHole, List.length_nil, show 0 < cap by omega, if_true, chk_ok_true,
+    List.nil_append]
+  rw [createElems xs _ 0 hC (by simp) (by simp; omega)]
+  simp only [Nat.zero_add, H.endArray, if_true, H.endArrayTop]
+  rw [show ([SNode.hole 0] ++ xs.map SNode.val) = [SNode.hole 0] ++ xs.map SNode.val from rfl,
+    sliceVals_suffix [SNode.hole 0] xs 1 rfl xs.length rfl]
+  simp only [pop, setAt_setAt c doc .null (.arr xs) d1 hd1, hd', ign_ok]
+
+/-- an object of the text over a node that is not a non-empty object: built on the node stack, replaces the node -/
+theorem updObjCreate (tkvs : Members) (h : H) (c : Path) (ev : JVal)
+    (hc : h.curNode = some c) (hg : getAt h.doc c = some ev) (hne : isNonEmptyObj ev = false)
+    (hst : h.st = []) (hp : h.parent = 0) (hb : nodesMembers tkvs ≤ h.cap) :
+    ∃ d', setAt h.doc c (apply ev (.obj tkvs)) = some d' ∧
+      driveValue h (.obj tkvs) = .ok ({ h with doc := d', curNode := none }, 0) := by
+  obtain ⟨doc, st, cap, parent, pnode, cnode, pst, fst, found⟩ := h
+  simp only at hc hg hst hp hb
+  subst hc hst hp
+  obtain ⟨d1, hd1⟩ := setAt_of_getAt c doc ev .null hg
+  obtain ⟨d', hd'⟩ := setAt_of_getAt c doc ev (.obj tkvs) hg
+  refine ⟨d', by rw [apply_not_obj ev _ hne]; exact hd', ?_⟩
+  have hC : Create (⟨d1, [], cap, 0, none, none, some c :: pnode :: pst, found :: fst, 0⟩ : H) :=
+    ⟨rfl, fun p hp => by simp at hp⟩
+  have hC' : Create (⟨d1, [] ++ flat tkvs, cap, 0, none, none, some c :: pnode :: pst, found :: fst, 0⟩ : H) :=
+    ⟨rfl, fun p hp => by simp at hp⟩
+  rw [driveValue]
+  simp only [H.startObject, hg, hne, Bool.false_eq_true, if_false, hd1, chk_ok_true]
+  rw [createMembers tkvs _ 0 hC (by simpa using hb)]
+  simp only [Nat.zero_add]
+  rw [H.endObject, parentIsObject_create _ hC']
+  simp only [if_true, H.endObjectTop, pop, List.nil_append]
+  rw [show flat tkvs = [] ++ (flatVals tkvs).map SNode.val from rfl,
+    sliceVals_suffix [] (flatVals tkvs) 0 rfl _ (length_flatVals tkvs).symm]
+  simp only [pairUp_flatVals, setAt_setAt c doc .null (.obj tkvs) d1 hd1, hd', ign_ok]
+
+/-- `EndObject` after the last member of an object that was updated in place -/
+theorem endObject_upd (h : H) (p : Path) (ekvs : Members) (pn : Option Path) (ps : List (Option Path)) (f : Nat)
+    (fs : List Nat) (cnt : Nat) (hpn : h.parentNode = some p) (hg : getAt h.doc p = some (.obj ekvs))
+    (hps : h.parentSt = pn :: ps) (hfs : h.foundSt = f :: fs) :
+    h.endObject cnt = .ok ({ h with parentNode := pn, parentSt := ps, curNode := none, found := f, foundSt := fs },
+      true) := by
+  simp [H.endObject, H.parentIsObject, hpn, hg, H.endObjectUpd, hps, hfs, pop]
+
+mutual
+theorem updValue : ∀ (tv : JVal) (h : H) (c : Path) (ev : JVal), h.curNode = some c → getAt h.doc c = some ev →
+    h.st = [] → h.parent = 0 → nodes tv ≤ h.cap →
+    ∃ d' cn, setAt h.doc c (apply ev tv) = some d' ∧ driveValue h tv = .ok ({ h with doc := d', curNode := cn }, 0)
+  | .null, h, c, ev, hc, hg, _, _, _ => by
+    obtain ⟨d', h1, h2⟩ := updScalar .null (by intro; simp) (by intro; simp) h c ev hc hg
+    exact ⟨d', some c, h1, by rw [h2, ← hc]⟩
+  | .bool _, h, c, ev, hc, hg, _, _, _ => by
+    obtain ⟨d', h1, h2⟩ := updScalar (.bool _) (by intro; simp) (by intro; simp) h c ev hc hg
+    exact ⟨d', some c, h1, by rw [h2, ← hc]⟩
+  | .num _, h, c, ev, hc, hg, _, _, _ => by
+    obtain ⟨d', h1, h2⟩ := updScalar (.num _) (by intro; simp) (by intro; simp) h c ev hc hg
+    exact ⟨d', some c, h1, by rw [h2, ← hc]⟩
+  | .str _, h, c, ev, hc, hg, _, _, _ => by
+    obtain ⟨d', h1, h2⟩ := updScalar (.str _) (by intro; simp) (by intro; simp) h c ev hc hg
+    exact ⟨d', some c, h1, by rw [h2, ← hc]⟩
+  | .arr xs, h, c, ev, hc, hg, hst, hp, hb => by
+    rw [nodes] at hb
+    obtain ⟨d', h1, h2⟩ := updArray xs h c ev hc hg hst hp hb
+    exact ⟨d', some c, h1, h2⟩
+  | .obj tkvs, h, c, ev, hc, hg, hst, hp, hb => by
+    rw [nodes] at hb
+    by_cases hne : isNonEmptyObj ev = true
+    · cases ev with
+      | obj ekvs =>
+        cases ekvs with
+        | nil => simp [isNonEmptyObj] at hne
+        | cons m ms =>
+          obtain ⟨doc, st, cap, parent, pnode, cnode, pst, fst, found⟩ := h
+          simp only at hc hg hst hp hb
+          subst hc hst hp
+          obtain ⟨d', h1, h2⟩ := updMembers tkvs
+            (⟨doc, [], cap, 0, some c, none, pnode :: pst, found :: fst, 0⟩ : H) c (m :: ms) pnode pst found fst 0
+            rfl hg rfl rfl rfl rfl (by simp only; omega)
+          refine ⟨d', none, by rw [apply]; exact h1, ?_⟩
+          rw [driveValue]
+          simp only [H.startObject, hg, isNonEmptyObj, if_true, chk_ok_true]
+          rw [h2]
+      | _ => simp [isNonEmptyObj] at hne
+    · have hne' : isNonEmptyObj ev = false := by simpa using hne
+      obtain ⟨d', h1, h2⟩ := updObjCreate tkvs h c ev hc hg hne' hst hp (by omega)
+      exact ⟨d', none, h1, h2⟩
+theorem updMembers : ∀ (tkvs : Members) (h : H) (p : Path) (ekvs : Members) (pn : Option Path)
+    (ps : List (Option Path)) (f : Nat) (fs : List Nat) (cnt : Nat),
+    h.parentNode = some p → getAt h.doc p = some (.obj ekvs) → h.st = [] → h.parent = 0 →
+    h.parentSt = pn :: ps → h.foundSt = f :: fs → nodesMembers tkvs ≤ h.cap →
+    ∃ d', setAt h.doc p (.obj (applyMembers ekvs tkvs h.found)) = some d' ∧
+      driveMembers h tkvs cnt =
+        .ok ({ h with doc := d', parentNode := pn, parentSt := ps, curNode := none, found := f, foundSt := fs }, 0)
+  | [], h, p, ekvs, pn, ps, f, fs, cnt, hpn, hg, _, _, hps, hfs, _ => by
+    refine ⟨h.doc, by rw [applyMembers]; exact setAt_self p h.doc _ hg, ?_⟩
+    rw [driveMembers, endObject_upd h p ekvs pn ps f fs cnt hpn hg hps hfs, ign_ok]
+  | (k, tv) :: rest, h, p, ekvs, pn, ps, f, fs, cnt, hpn, hg, hst, hp, hps, hfs, hb => by
+    rw [nodesMembers] at hb
+    obtain ⟨doc, st, cap, parent, pnode, cnode, pst, fst, found⟩ := h
+    simp only at hpn hg hst hp hps hfs hb ⊢
+    subst hpn hst hp hps hfs
+    rw [driveMembers, applyMembers]
+    simp only [H.key, hg]
+    by_cases hge : found ≥ ekvs.length
+    · simp only [hge, if_true]
+      obtain ⟨d', h1, h2⟩ := updMembers rest
+        (⟨doc, [], cap, 0, some p, none, pn :: ps, f :: fs, found⟩ : H) p ekvs pn ps f fs cnt
+        rfl hg rfl rfl rfl rfl (by simp only; omega)
+      exact ⟨d', h1, h2⟩
+    · simp only [hge, if_false]
+      cases hf : findIdx k ekvs with
+      | none =>
+        simp only [findIdx_none hf, Bool.false_eq_true, if_false]
+        obtain ⟨d', h1, h2⟩ := updMembers rest
+          (⟨doc, [], cap, 0, some p, none, pn :: ps, f :: fs, found⟩ : H) p ekvs pn ps f fs cnt
+          rfl hg rfl rfl rfl rfl (by simp only; omega)
+        exact ⟨d', h1, h2⟩
+      | some i =>
+        obtain ⟨ev, hi, hk, hm⟩ := findIdx_some hf
+        simp only [hk, if_true, hm]
+        obtain ⟨d1, cn, hd1, hv⟩ := updValue tv
+          (⟨doc, [], cap, 0, some p, some (p ++ [i]), pn :: ps, f :: fs, found + 1⟩ : H) (p ++ [i]) ev
+          rfl (getAt_append p doc ekvs i k ev hg hi) rfl rfl (by simp only; omega)
+        simp only at hd1 hv
+        rw [setAt_append p doc ekvs i k ev _ hg hi] at hd1
+        obtain ⟨d2, hd2, hr⟩ := updMembers rest
+          (⟨d1, [], cap, 0, some p, cn, pn :: ps, f :: fs, found + 1⟩ : H) p
+          (ekvs.set i (k, apply ev tv)) pn ps f fs (cnt + 1)
+          rfl (getAt_setAt p doc _ d1 hd1) rfl rfl rfl rfl (by simp only; omega)
+        simp only at hd2 hr
+        rw [setAt_setAt p doc _ _ d1 hd1] at hd2
+        refine ⟨d2, hd2, ?_⟩
+        rw [hv, andThen_ok_zero, hr]
+end
+
+/-- the SAX machine with its stacks computes the functional reading, with `err = 0`, provided the node stack is
+    large enough for the text's value (`SetUp` allocates `max(16, len/2 + 2)` slots for a text of `len` bytes) -/
+theorem handler_eq_apply (cap : Nat) (e t : JVal) (hb : nodes t ≤ cap) : handler cap e t = .ok (0, apply e t) := by
+  obtain ⟨d', cn, h1, h2⟩ := updValue t (H.init cap e) [] e rfl (getAt_nil e) rfl rfl hb
+  rw [show (H.init cap e).doc = e from rfl, setAt_nil] at h1
+  cases h1
+  rw [handler, h2]
 
 end Sonic.Proofs.MergeHandler
